@@ -23,14 +23,31 @@ pub fn configuration(refs_ext: &str) -> Configuration {
     Configuration { markdown: MarkdownOptions { refs_extension: refs_ext.to_string() }, ..Default::default() }
 }
 
+/// `refs_ext` may carry a flavour after a '|': "<ext>|helix" (client name helix), "<ext>|models" (a default
+/// model without API key and one custom action), "<ext>|helix+models"
 pub fn new_server(texts: &BTreeMap<String, String>, refs_ext: &str) -> Server {
     let state: HashMap<String, String> = texts.iter().map(|(k, v)| (k.clone(), v.clone())).collect();
+    let (ext, flavour) = match refs_ext.split_once('|') {
+        Some((e, f)) => (e, f),
+        None => (refs_ext, ""),
+    };
+    let mut configuration = configuration(ext);
+    if flavour.contains("models") {
+        configuration.models.insert(
+            "default".into(),
+            liwe::model::config::Model { api_key_env: String::new(), base_url: "http://127.0.0.1:9".into(), name: "none".into(), max_tokens: None, max_completion_tokens: None, temperature: None },
+        );
+        configuration.actions.insert(
+            "rewrite".into(),
+            liwe::model::config::BlockAction { title: "Rewrite".into(), model: "default".into(), prompt_template: "{{context}}".into(), context: liwe::model::config::Context::Document },
+        );
+    }
     Server::new(ServerConfig {
         base_path: BASE.to_string(),
         state,
         sequential_ids: Some(true),
-        configuration: configuration(refs_ext),
-        lsp_client: LspClient::Unknown,
+        configuration,
+        lsp_client: if flavour.contains("helix") { LspClient::Helix } else { LspClient::Unknown },
     })
 }
 
@@ -257,11 +274,16 @@ pub fn rename(server: &Server, key: &str, line: u32, ch: u32, new_name: &str) ->
 }
 
 pub fn code_actions(server: &Server, key: &str, line: u32) -> Result<Vec<CodeAction>, String> {
+    code_actions_in(server, key, line, 0)
+}
+
+/// `span` > 0: a non-empty selection of that many characters (only the helix client gets actions for it)
+pub fn code_actions_in(server: &Server, key: &str, line: u32, span: u32) -> Result<Vec<CodeAction>, String> {
     guarded(|| {
         server
             .handle_code_action(&CodeActionParams {
                 text_document: TextDocumentIdentifier { uri: uri(key) },
-                range: Range::new(Position::new(line, 0), Position::new(line, 0)),
+                range: Range::new(Position::new(line, 0), Position::new(line, span)),
                 context: Default::default(),
                 work_done_progress_params: Default::default(),
                 partial_result_params: Default::default(),
@@ -407,6 +429,7 @@ pub fn observe(server: &Server, texts: &BTreeMap<String, String>, cfg: &ObsCfg, 
             }
             put(format!("rename:{}:{}", key, l), rename(server, key, l as u32, c as u32 + 3, "renamed-note"));
         }
+        put(format!("actions-selection:{}", key), code_actions_in(server, key, 0, 3).map(|a| fmt_actions(&a)));
         let mut resolved = 0;
         for n in 0..cfg.action_lines.min(nlines) {
             let line = if cfg.action_lines >= nlines { n } else { pick.below(nlines) };
